@@ -32,6 +32,7 @@ def gen_tree_faults(rng, tier):
     driven by EventsHandler)"""
     n_uni = n_cases(tier, 20, 120)
     docs = itertools.chain(documents(rng, tier, n_uni, 2, mutate=False), focused_documents(rng, n_cases(tier, 24, 160), 2))
+    yield from gen_union_exhaustive(rng, tier)
     for u, ctx, desc, tree, kind in docs:
         cfgs = [rng.choice(CONFIGS) for _ in range(3)]
         yield {"ctx": ctx, "tree": tree, "clazz": "Root", "config": cfgs[0], "desc": desc, "_uni": u.modname, "_kind": "valid"}
@@ -44,6 +45,53 @@ def gen_tree_faults(rng, tier):
         # the wrong target class for a valid document
         other = rng.choice([c["name"] for c in desc["classes"]])
         yield {"ctx": ctx, "tree": tree, "clazz": other, "config": cfgs[1], "desc": desc, "_uni": u.modname, "_kind": "wrong_class"}
+
+
+def gen_union_exhaustive(rng, tier):
+    """bounded-exhaustive: a two-class universe with one union field, every order of its candidates
+    (class Item, int, str, bool), and every document of a small grammar below the union element:
+    text x attributes x children (each member absent / well typed / mistyped, an unknown child)"""
+    import itertools as it
+
+    members = [{"cls": "Item"}, "int", "str", "bool"]
+    perms = [list(p) for r in (2, 3, 4) for p in it.permutations(members, r) if {"cls": "Item"} in p]
+    if tier == "quick":
+        perms = rng.sample(perms, 4)
+    texts = [None, "", "12", "true", "abc", " 7 "]
+    attr_sets = [[], [["zzz", "v"]], [["k", "fix"]], [["k", "other"]], [["{http://www.w3.org/2001/XMLSchema-instance}type", "zz:T"]]]
+    child_opts = {
+        "y": [None, "a"],
+        "n": [None, "7", "x", "<nested>"],
+        "u": [None, "1"],
+    }
+    for perm in perms:
+        desc = {"classes": [
+            {"name": "Item", "fields": [
+                {"name": "y", "type": {"opt": "str"}, "metadata": {"type": "Element"}, "default": {"value": None}},
+                {"name": "n", "type": {"opt": "int"}, "metadata": {"type": "Element"}, "default": {"value": None}},
+                {"name": "k", "type": "str", "metadata": {"type": "Attribute"}, "default": {"value": "fix"}, "init": False}]},
+            {"name": "Root", "fields": [
+                {"name": "m", "type": {"opt": {"union": perm}}, "metadata": {"type": "Element"}, "default": {"value": None}}]}]}
+        try:
+            u = B.Universe(desc)
+            ctx = u.export_ctx()
+        except Exception:  # noqa: BLE001
+            continue
+        _UNIS[u.modname] = u
+        combos = list(it.product(texts, attr_sets, child_opts["y"], child_opts["n"], child_opts["u"]))
+        if tier == "quick":
+            combos = rng.sample(combos, 40)
+        for text, attrs, y, n, un in combos:
+            kids = []
+            for q, v in (("y", y), ("n", n), ("unknownEl", un)):
+                if v == "<nested>":  # a child below a primitive member: XmlContextError inside the trial
+                    kids.append({"q": q, "a": [], "ns": [], "t": "7", "tl": None,
+                                 "c": [{"q": "deep", "a": [], "ns": [], "t": None, "c": [], "tl": None}]})
+                elif v is not None:
+                    kids.append({"q": q, "a": [], "ns": [], "t": v, "c": [], "tl": None})
+            tree = {"q": "Root", "a": [], "ns": [], "t": None, "tl": None,
+                    "c": [{"q": "m", "a": [list(kv) for kv in attrs], "ns": [], "t": text, "c": kids, "tl": None}]}
+            yield {"ctx": ctx, "tree": tree, "clazz": "Root", "config": rng.choice(CONFIGS), "desc": desc, "_uni": u.modname, "_kind": "exh"}
 
 
 FOCUS = [
@@ -113,6 +161,23 @@ def classify_tree(a, o):
     """fault kind : outcome, with the number of union-bound elements of the document"""
     u = _union_elements(a)
     return ("union%s/" % ("1" if u == 1 else "2+") if u else "") + classify_outcome(a, o)
+
+
+def impl_parse_capped(a):
+    """NodeParser(EventsHandler) on the real code, under the per-case time cap (a parser that does not
+    come back is an outcome of its own, never a hung check)"""
+    # once a few cases ran into the cap the remaining ones get a short one: the check reports the
+    # hang either way and must itself stay bounded
+    cap = F.CAP_S if _HANGS[0] < 3 else 0.5
+    try:
+        with F.time_cap(cap):
+            return impl_parse(a)
+    except F.Hang:
+        _HANGS[0] += 1
+        return {"err": "HANG"}
+
+
+_HANGS = [0]
 
 
 def classify_outcome(a, o):
@@ -353,7 +418,7 @@ def cmp_dict(mo, io, a):
 
 
 # =============================================================================== (ii'') xinclude, both handlers
-XI_FEATURES = {"attr", "elem", "child", "list", "text", "nillable", "wrapper", "sequence", "ns", "tokens", "fixed", "inherit"}
+XI_FEATURES = {"attr", "elem", "child", "list", "text", "nillable", "wrapper", "sequence", "ns", "tokens", "fixed"}  # no "inherit": xsi:type="ns0:Sub" is prefixed content
 
 
 def gen_doc_xinclude(rng, tier):
@@ -383,6 +448,10 @@ def gen_doc_xinclude(rng, tier):
                 else:
                     tok = expect
                 for handler in ("native", "lxml"):
+                    if handler == "lxml" and isinstance(expect, dict) and "raised" in expect:
+                        # the codec callback is pyexpat's; libxml2 knows (or refuses) the encoding itself
+                        t = F.expanded_tree(m2, f2)
+                        tok = {"tree": t} if t is not None else "include"
                     yield {"ctx": ctx if isinstance(tok, dict) and "tree" in tok else F.EMPTY_CTX, "tok": tok, "clazz": "Root", "config": cfg,
                            "hex": m2.hex(), "files": {n: b.hex() for n, b in f2.items()}, "handler": handler,
                            "desc": desc, "_uni": u.modname, "_kind": handler + "/" + k}
@@ -403,7 +472,7 @@ def cmp_doc_xinclude(mo, io, a):
 
 
 CORRS = [
-    Corr("bind.parse_u", gen_tree_faults, impl_parse, compare=cmp_tree, classify=classify_tree,
+    Corr("bind.parse_u", gen_tree_faults, impl_parse_capped, compare=cmp_tree, classify=classify_tree,
          describe="NodeParser(EventsHandler) vs model (parseRootU: Element/Primitive/Standard/Wildcard/Skip/Wrapper/Union nodes) on valid documents and every tree-level fault kind"),
     Corr("fault.document", gen_doc_native, impl_doc_native, compare=cmp_doc, classify=classify_outcome,
          describe="XmlParser(XmlEventHandler).from_bytes vs model(parseDocument) on byte-level faults; tokenizer outcome from libxml2 strict"),
@@ -439,11 +508,12 @@ def _is_instance_val(u, v, clazz):
 
 def check_tree(a):
     u = uni_of(a)
-    with F.time_cap(F.CAP_S) as cap:
+    with F.time_cap(F.CAP_S if _HANGS[0] < 3 else 0.5) as cap:
         try:
             r = B.real_parse_tree(u, a["clazz"], a["tree"], a.get("config", {}))
         except F.Hang:
-            return "NodeParser did not return within %.0f s" % F.CAP_S
+            _HANGS[0] += 1
+            return "NodeParser did not return within %.1f s" % cap.seconds
     if "ok" in r:
         if not _is_instance_val(u, r["ok"]["value"], a["clazz"]):
             return "NodeParser returned something that is not an instance of the requested class: %s" % json.dumps(r["ok"]["value"])[:120]
@@ -566,6 +636,83 @@ def gen_oracle_json(rng, tier):
                 yield {**base, "hex": b.hex(), "_kind": k}
 
 
+def gen_oracle_union(rng, tier):
+    yield from gen_union_exhaustive(rng, tier)
+
+
+def _own_score(obj):
+    """score_object re-stated: None -1; a model: per field str 1, other non-None 1.5; else str 1 / 1.5"""
+    import dataclasses
+
+    def one(v):
+        return 1.0 if isinstance(v, str) else (0.0 if v is None else 1.5)
+
+    if obj is None:
+        return -1.0
+    if dataclasses.is_dataclass(obj):
+        return sum(one(getattr(obj, f.name)) for f in dataclasses.fields(obj))
+    return one(obj)
+
+
+def check_union_choice(a):
+    """`union_picks_best_score` on the real code: the value bound to a union field is the FIRST of the
+    candidates' own results with maximal score (each candidate tried on its own by a fresh strict
+    parser / converter; candidates that the attributes rule out skipped); ParserError iff none."""
+    from xsdata.exceptions import ParserError
+    from xsdata.formats.converter import converter
+    from xsdata.formats.dataclass.context import XmlContext
+    from xsdata.formats.dataclass.parsers.bases import NodeParser
+    from xsdata.formats.dataclass.parsers.config import ParserConfig
+    from xsdata.formats.dataclass.parsers.mixins import EventsHandler
+
+    u = uni_of(a)
+    Root, Item = u.classes["Root"], u.classes["Item"]
+    el = a["tree"]["c"][0]
+    # the candidates in the order of the exported metadata (`XmlVar.types`; the builder sorts them)
+    var = next(v for vs in XmlContext(models_package=u.modname).build(Root).elements.values() for v in vs)
+    perm = [{"cls": "Item"} if t is Item else t.__name__ for t in var.types]
+    attrs = {k: v for k, v in el["a"]}
+    strict = ParserConfig(**{**a.get("config", {}), "fail_on_converter_warnings": True})
+    results = []
+    for cand in perm:
+        res = None
+        if isinstance(cand, dict):
+            if "k" in attrs and attrs["k"].strip() != "fix":
+                continue  # fixed attribute mismatch rules the class out
+            try:
+                res = NodeParser(context=XmlContext(models_package=u.modname), config=strict, handler=EventsHandler).parse(B.tree_events(el), Item)
+            except Exception:  # noqa: BLE001
+                res = None
+        else:
+            if attrs:
+                continue  # a primitive cannot carry attributes
+            tp = {"int": int, "str": str, "bool": bool}[cand]
+            try:
+                res = None if el["t"] is None else converter.deserialize(el["t"], [tp])
+            except Exception:  # noqa: BLE001
+                res = None
+        results.append(res)
+    best, best_score = None, -1.0
+    for r in results:
+        if _own_score(r) > best_score:
+            best, best_score = r, _own_score(r)
+    try:
+        with F.time_cap(F.CAP_S):
+            got = NodeParser(context=XmlContext(models_package=u.modname), config=ParserConfig(**a.get("config", {})), handler=EventsHandler).parse(
+                B.tree_events(a["tree"]), Root)
+    except F.Hang:
+        return "UnionNode did not return within %.0f s" % F.CAP_S
+    except ParserError:
+        return None if best is None else f"union field rejected although candidate result {best!r} exists"
+    except Exception as e:  # noqa: BLE001
+        return f"{type(e).__name__} escaped from a document with a union field"
+    if best is None:
+        return f"union field bound {got.m!r} although every candidate fails"
+    if type(got.m) is not type(best) or got.m != best:
+        return f"union field bound {got.m!r}, the first best-scoring candidate result is {best!r} (results {results!r})"
+    return None
+
+
 def gen_oracle_xinclude(rng, tier):
     for a in gen_doc_xinclude(rng, tier):
         yield {k: a[k] for k in ("hex", "files", "handler", "clazz", "config", "desc", "_uni", "_kind")}
@@ -610,6 +757,7 @@ ORACLES = [
     Oracle("c15.tree", gen_oracle_tree, check_tree, from_ops=("bind.parse_u",)),
     Oracle("c15.xml_bytes", gen_oracle_xml, check_xml_bytes, covered=covered_xml,
            from_ops=("fault.document", "fault.document.lxml"), adapt=adapt_xml),
+    Oracle("c15.union_choice", gen_oracle_union, check_union_choice),
     Oracle("c15.xinclude", gen_oracle_xinclude, check_xinclude, from_ops=("fault.document.xinclude",),
            adapt=lambda op, a: {k: a[k] for k in ("hex", "files", "handler", "clazz", "config", "desc", "_uni", "_kind")}),
     Oracle("c15.json", gen_oracle_json, check_json, from_ops=("dict.decode",),
@@ -679,16 +827,17 @@ ASSUMPTIONS = [
     "a DerivedElement wrapper around an instance of the requested class counts as an instance (documented behaviour for xsi:type / derived JSON documents)",
 ]
 LEVEL_TEXT = (
-    "Lean theorem over every element tree, every class universe (arbitrary metadata), every parser config: the tree-level parser "
-    "(NodeParser + Element/Primitive/Standard/Wildcard/Skip/Wrapper nodes + ParserUtils) ends in a value, ParserError, ConverterError or "
-    "XmlContextError (or leaves the modelled fragment), never in another exception type; the byte-level entry point adds the "
-    "SyntaxError->ParserError and codec-error->ParserError translations and is proved leak-free for every tokenizer outcome (no_leak_document). "
-    "Tied to /repo by a differential check on every tree-level fault kind and on byte-level faults (truncation at each offset, flips, "
-    "deletions, undeclared prefixes, wrong root, encodings, random bytes) for both handlers; the JSON/dict decoder model is proved leak-free "
-    "for every loaded value and every json.load outcome (no_leak_dict, no_leak_json) and tied to /repo by value-level and byte-level fault "
-    "enumeration. Two tokenizer-level behaviours (expat version numbers, lxml surrogate references) stay listed as known findings."
+    "Lean theorems over every element tree, every class universe (arbitrary metadata), every parser config: the tree-level parser "
+    "(NodeParser + Element/Primitive/Standard/Wildcard/Skip/Wrapper/Union nodes + ParserUtils) ends in a value, ParserError, ConverterError or "
+    "XmlContextError, never in another exception type (no_leak_parse_union; the union-aware model is proved a conservative extension of the one "
+    "the other properties use, union_model_extends_parse, and UnionNode's choice is characterised: union_picks_best_score); the byte-level entry "
+    "point is proved leak-free for every tokenizer outcome of both handlers incl. the xinclude path (no_leak_document); the JSON/dict decoder "
+    "model is proved leak-free for every loaded value and every json.load outcome (no_leak_dict, no_leak_json). Tied to /repo by differential "
+    "checks on every tree-level fault kind (union-targeted faults and a bounded-exhaustive union section included), byte-level faults for both "
+    "handlers, xinclude splits of real documents, and value/byte-level JSON faults. One tokenizer-level behaviour (expat does not check the "
+    "version number) stays listed as a known finding."
 )
 LEVEL_NOTE = (
-    "Trusted: Lean kernel; expat/libxml2 (outcome taken as input); the sampling correspondence. Not covered by proof: UnionNode, "
-    "the JSON decoder beyond its outcome model, xinclude, file/path sources."
+    "Trusted: Lean kernel; expat/libxml2 (their outcome on a byte string is an input of the model); the sampling correspondence. Not covered: "
+    "values of the JSON decoder (outcome classes only), I/O failures of file/path sources and of xinclude targets (OSError passes through)."
 )
